@@ -70,6 +70,18 @@ def step (s : St) (toks : List String) : IO (St × Bool) := do
       if (modulusOf s h).isNone then IO.println "bad-op"; return (s, false)
       IO.println "ok"; return ({ s with owners := if s.owners.contains h then s.owners else h :: s.owners }, false)
     | none => IO.println "bad-op"; return (s, false)
+  | ["wx", h, n] =>
+    -- a length >= 2^32 (up to 2^64-1) offered from a one-byte source: same model function as `wz`
+    if (n.toNat?.getD 0) < 4294967296 then IO.println "bad-op"; return (s, false) else
+    match h.toNat?.bind (modulusOf s), n.toNat?, s.seg with
+    | some M, some n, some sh =>
+      match writeZeros M sh n with
+      | .fault => IO.println "fault"; return (s, true)
+      | .ok sh' r =>
+        let (q', sr) := Queue.writeZeros s.cap s.q n
+        IO.println (specSuffix (fmtI r) (fmtI sr))
+        return ({ s with seg := some sh', q := q' }, false)
+    | _, _, _ => IO.println "bad-op"; return (s, false)
   | ["wz", h, n] =>
     match h.toNat?.bind (modulusOf s), n.toNat?, s.seg with
     | some M, some n, some sh =>
